@@ -30,7 +30,11 @@ impl std::fmt::Debug for Spawned {
     }
 }
 
+/// Callback installed by a harness for [`yield_point`].
+pub type YieldFn = std::sync::Arc<dyn Fn(&'static str) + Send + Sync>;
+
 thread_local! {
+    static YIELD: RefCell<Option<YieldFn>> = const { RefCell::new(None) };
     static SPAWNED: RefCell<Option<Vec<Spawned>>> = const { RefCell::new(None) };
     static CLOCK_OFFSET: Cell<Duration> = const { Cell::new(Duration::ZERO) };
     static CLOCK_FROZEN: Cell<Option<Instant>> = const { Cell::new(None) };
@@ -104,6 +108,32 @@ pub fn advance_clock(by: Duration) {
 pub fn reset_clock() {
     CLOCK_OFFSET.with(|c| c.set(Duration::ZERO));
     CLOCK_FROZEN.with(|c| c.set(None));
+}
+
+/// This thread's pool clock: the frozen instant (if any) and the offset.
+pub fn clock_state() -> (Option<Instant>, Duration) {
+    (CLOCK_FROZEN.with(|c| c.get()), CLOCK_OFFSET.with(|c| c.get()))
+}
+
+/// Give this thread the pool clock of another thread (see [`clock_state`]).
+pub fn set_clock_state(state: (Option<Instant>, Duration)) {
+    CLOCK_FROZEN.with(|c| c.set(state.0));
+    CLOCK_OFFSET.with(|c| c.set(state.1));
+}
+
+/// Install (or remove) the callback run at every [`yield_point`] reached on this thread.
+pub fn set_yield_fn(f: Option<YieldFn>) {
+    YIELD.with(|y| *y.borrow_mut() = f);
+}
+
+/// Interleaving seam: called by pool code just before it touches state shared with other
+/// tasks (the pool lock, a waiter channel). Does nothing unless a harness installed a callback
+/// on this thread; the callback may park the thread while another thread runs.
+pub fn yield_point(site: &'static str) {
+    let f = YIELD.with(|y| y.borrow().clone());
+    if let Some(f) = f {
+        f(site);
+    }
 }
 
 /// Address family preference, mirroring the crate-private use in the TCP transport.
